@@ -343,7 +343,7 @@ impl Gener {
         // TTL, left to expire, then a clean reopen, then automatically timestamped calls on those keys
         let script_kind = if matches!(spec.focus, Focus::Ts | Focus::Ttl) && spec.cfg.ttl && rng.chance(1, 3) {
             1 + rng.below(3)
-        } else if matches!(spec.focus, Focus::Ts | Focus::Mem) && spec.cfg.max_memory.is_some() && rng.chance(1, 2) {
+        } else if matches!(spec.focus, Focus::Ts | Focus::Mem | Focus::All) && spec.cfg.max_memory.is_some() && rng.chance(1, 2) {
             // a write that the memory limit refuses while it carries an explicit timestamp ahead of the clock,
             // followed by automatic writes on the same key
             5
@@ -452,9 +452,23 @@ impl Gener {
         let now = m.now;
         if kind == 5 {
             let limit = spec.cfg.max_memory.unwrap_or(1000);
-            for round in 0..2u64 {
+            for round in 0..4u64 {
                 let k = self.rng.pick(&self.keys).clone();
                 let future = Ts::Explicit(now + (5000 + round) * NS);
+                if round >= 2 {
+                    // a plain UPDATE of an existing key (slice / Bytes entry point) that the limit refuses while it
+                    // carries a timestamp ahead of the clock; afterwards an automatic write, and an explicit one
+                    // that lies between the wall clock and the refused timestamp (must be accepted)
+                    let small = b"a-small-value-a-small-value".to_vec();
+                    self.script.push_back(Op::Insert { k: k.clone(), v: small, ts: Ts::None, bytes: false });
+                    self.script.push_back(Op::Insert { k: k.clone(), v: vec![b'U'; limit + 64], ts: future, bytes: round == 3 });
+                    let v = self.value(spec, &k);
+                    self.script.push_back(Op::Insert { k: k.clone(), v, ts: Ts::None, bytes: false });
+                    let v = self.value(spec, &k);
+                    self.script.push_back(Op::Insert { k: k.clone(), v, ts: Ts::Explicit(now + (100 + round) * NS), bytes: false });
+                    self.script.push_back(Op::Get { k, bytes: false });
+                    continue;
+                }
                 if round == 0 {
                     let small = self.value(spec, &k);
                     let small = if small.is_empty() || small.len() > 200 { b"a-small-value-a-small-value".to_vec() } else { small };
